@@ -192,6 +192,7 @@ fn violate(rng: &mut Rng, doc: &mut Y) -> &'static str {
             ("real", 3) | ("int", 3) => { m.remove("scale"); return "missing-scale"; }
             ("real", 4) | ("int", 4) => { m.insert(ys("scale"), if rng.chance(1, 2) { yf(0.0) } else { yf(-1.5) }); return "scale-not-positive"; }
             ("real", 5) => { m.insert(ys(*rng.pick(&["init", "min", "max", "scale"])), yf(*rng.pick(&[f64::INFINITY, f64::NEG_INFINITY, f64::NAN]))); return "non-finite-number"; }
+            ("int", 5) => { m.insert(ys("scale"), yf(*rng.pick(&[f64::INFINITY, f64::NAN]))); return "non-finite-number"; }
             ("real", 6) => { let v = m.get("init").and_then(|x| x.as_f64()).unwrap_or(0.0); m.insert(ys("min"), yf(v + 1.0 + v.abs())); m.remove("max"); return "init-below-min"; }
             ("real", 7) => {
                 // min == max; one time in three the two zeros: -0.0 and 0.0 are the same number, so the range is empty as well
